@@ -97,3 +97,6 @@ def check(prog, rep):
     rep.rule("C04.R7", "safe-sequence fixing never forbids further repetitions of a cycle edge: SCC edges get lower bounds (x >= m) on both option routes", floor=2)
     from rules.c05 import bound_vs_constraint_route
     bound_vs_constraint_route(prog, rep, "C04.R7")
+    rep.rule("C04.R8", "the integer*continuous product helper every walk model uses is exact for multiplicities up to its bound (bit count, rows; C12.R2)", floor=5)
+    from rules.common import helpers_exact
+    helpers_exact(prog, rep, "C04.R8")
